@@ -129,7 +129,13 @@ OnSrvReq(st, e) ==
 OnResp(st, e) ==
   LET xs == XOfTok(st, e.tok) IN
   IF xs = {}
-  THEN IF KF("KF_C09_LEFTOVER_RESPONSE_KEEPS_STATE_TOKEN") /\ (e.stok = <<-1>> \/ DOMAIN st.xf \subseteq (st.concl \cup st.failed))
+  THEN \* KF_C09_STATE_EXPIRED_WHILE_ITS_NEXT_BLOCK_WAITED: the client's state of a Block1 transfer was dropped (its body released) although the application
+       \* has been told nothing yet, and the answer to a follow-up block that libcoap sent all the same is handed over under libcoap's token
+       LET X == {x \in DOMAIN st.xf : st.xf[x].l1 >= 0 /\ [side |-> "c", serial |-> x] \in SeqToSet(st.rel) /\ x \notin (st.concl \cup st.failed)} IN
+       IF KF("KF_C09_STATE_EXPIRED_WHILE_ITS_NEXT_BLOCK_WAITED") /\ e.stok = e.tok /\ X # {} /\ st.lossy
+       THEN K([st EXCEPT !.replayed = @ \cup X, !.failed = @ \cup X], "KF_C09_STATE_EXPIRED_WHILE_ITS_NEXT_BLOCK_WAITED")
+       ELSE
+       IF KF("KF_C09_LEFTOVER_RESPONSE_KEEPS_STATE_TOKEN") /\ (e.stok = <<-1>> \/ DOMAIN st.xf \subseteq (st.concl \cup st.failed))
        THEN K(st, "KF_C09_LEFTOVER_RESPONSE_KEEPS_STATE_TOKEN")     \* unsolicited, or answer to a follow-up request of a transfer that is over
        ELSE R(st, "C09:response-handler-saw-a-token-the-application-never-used")
   ELSE IF e.stok # <<-1>> /\ e.stok # e.tok THEN R(st, "C09:response-handler-saw-a-sent-pdu-with-a-substituted-token")
